@@ -636,6 +636,16 @@ fn gen_evict(count: u64, seed: u64) {
         let mut ops: Vec<Value> = Vec::new();
         for k in 1..=n {
             ops.push(json!({"op": "Insert", "k": k, "v": k, "w": 1}));
+            if k == n / 2 + 20 {
+                // lookups recorded while the estimator is on and the cache is still filling: what
+                // they have recorded must survive the rest of the fill (no aging step is due yet)
+                ops.push(json!({"op": "Sync"}));
+                for _ in 0..3 {
+                    ops.push(json!({"op": "Get", "k": 1}));
+                }
+                ops.push(json!({"op": "Get", "k": 2}));
+                ops.push(json!({"op": "Sync"}));
+            }
         }
         ops.push(json!({"op": "Sync"}));
         if id % 2 == 1 {
@@ -650,6 +660,34 @@ fn gen_evict(count: u64, seed: u64) {
         }
         ops.push(json!({"op": "Sync"}));
         ops.push(json!({"op": "Get", "k": big}));
+        ops.push(json!({"op": "Iter"}));
+        writeln!(o, "{}", json!({"id": id, "cfg": cfg, "ops": ops})).unwrap();
+    }
+}
+
+/// The single-threaded cache with a weigher filled with more entries than the estimator's smallest
+/// table holds, lookups recorded half way: the estimates must survive the rest of the fill.
+fn gen_fill(count: u64, seed: u64) {
+    use std::io::Write;
+    let out = std::io::stdout();
+    let mut o = std::io::BufWriter::new(out.lock());
+    let mut rng = Rng::new(seed);
+    for id in 0..count {
+        let n: u32 = 280 + rng.below(20) as u32;
+        let cfg = json!({"kind": "unsync", "cap": n, "ttl": -1, "tti": -1, "weigher": true,
+            "hasher": "mix", "nkeys": n, "lean": true, "seed": rng.below(1000)});
+        let mut ops: Vec<Value> = Vec::new();
+        for k in 1..=n {
+            ops.push(json!({"op": "Insert", "k": k, "v": k, "w": 1}));
+            if k == n / 2 + 10 {
+                for _ in 0..3 {
+                    ops.push(json!({"op": "Get", "k": 1}));
+                }
+                ops.push(json!({"op": "Get", "k": 2}));
+            }
+        }
+        ops.push(json!({"op": "Get", "k": 1}));
+        ops.push(json!({"op": "Contains", "k": n}));
         ops.push(json!({"op": "Iter"}));
         writeln!(o, "{}", json!({"id": id, "cfg": cfg, "ops": ops})).unwrap();
     }
@@ -724,6 +762,10 @@ pub fn cmd_gen(args: &[String]) {
     if args[0] == "unsync-admit" || args[0] == "sync-admit" {
         let kind = if args[0] == "unsync-admit" { "unsync" } else { "sync" };
         gen_admit(kind, args[2].parse().unwrap(), args[1].parse().unwrap());
+        return;
+    }
+    if args[0] == "unsync-fill" {
+        gen_fill(args[2].parse().unwrap(), args[1].parse().unwrap());
         return;
     }
     if args[0] == "sync-evict" {
